@@ -43,6 +43,10 @@
                                        false | Ready(Some x) -> go on to process x
    ARun @ (OPoll k, JProc x)           l.222-223 process.lock() ; call closure; await it          LProcess
    ARun @ (OPoll k, JClear)            l.148 poll_fn.lock() := None                               LPollFn
+   ARun @ (OPoll k, JEnd)              the job's future has returned; ObjExec finishes the        LNone
+                                       operation (Finish).  Between the Pending poll_next and
+                                       this step the job is "still finishing" while a wake for
+                                       the waker it just registered may already be under way
    ARun @ (OOther n, _) / (OFree, _)   an opaque operation of another user / the final            LNone
                                        operation of Desync::drop runs (one step) and finishes
    AEnvAvail / AEnvEnd                 the producer makes an item available / closes the input;   LNone
@@ -62,8 +66,7 @@
    * the hand-over of old_poll_fn to the chute (an enqueue on the chute's own queue) is merged into the WTake step;
      chute jobs that carry `None` are not represented.
    * `process_future.await` is one step (the processing future is assumed not to suspend), as in the task statement.
-   * the poll job's last step also finishes the operation (logs EFinish): the dequeue of the next operation is a
-     separate ARun step.
+   * finishing an operation (EFinish) and dequeuing the next one (EStart) are separate ARun steps.
    * the input's own internal lock is taken inside the `stream` mutex section; both are the one LStream step; the
      environment's updates of the input are atomic steps (LNone).
    * AEnvDrop is enabled at any time (also before the initial poll finished, which pipe_in itself excludes because it
@@ -88,7 +91,7 @@ Definition is_poll (o : op) : bool := match o with OPoll _ => true | _ => false 
 Definition is_free (o : op) : bool := match o with OFree => true | _ => false end.
 
 (* program counter of the running operation *)
-Inductive jpc := JNew | JLockPf | JPoll | JProc (x : item) | JClear.
+Inductive jpc := JNew | JLockPf | JPoll | JProc (x : item) | JClear | JEnd.
 
 (* ghost log *)
 Inductive event := EStart (o : op) | EFinish (o : op) | EProcess (x : item).
@@ -153,15 +156,16 @@ Definition step (s : state) (a : actor) : option state :=
           end
       | Some (OPoll k, JNew) => Some (s <| wctx := <[k := WkLive]> s.(wctx) |> <| running := Some (OPoll k, JLockPf) |>)
       | Some (OPoll k, JLockPf) =>
-          if s.(pollfn) then Some (s <| running := Some (OPoll k, JPoll) |>) else Some (finish s (OPoll k))
+          if s.(pollfn) then Some (s <| running := Some (OPoll k, JPoll) |>) else Some (s <| running := Some (OPoll k, JEnd) |>)
       | Some (OPoll k, JPoll) =>
           match s.(ready) with
           | x :: r => Some (s <| ready := r |> <| running := Some (OPoll k, JProc x) |>)
           | [] => if s.(ended) then Some (upd_rel (s <| running := Some (OPoll k, JClear) |>))
-                  else Some (upd_rel (finish (s <| reg := Some k |>) (OPoll k)))
+                  else Some (upd_rel (s <| reg := Some k |> <| running := Some (OPoll k, JEnd) |>))
           end
       | Some (OPoll k, JProc x) => Some (s <| log := s.(log) ++ [EProcess x] |> <| running := Some (OPoll k, JPoll) |>)
-      | Some (OPoll k, JClear) => Some (upd_rel (finish (s <| pollfn := false |>) (OPoll k)))
+      | Some (OPoll k, JClear) => Some (upd_rel (s <| pollfn := false |> <| running := Some (OPoll k, JEnd) |>))
+      | Some (OPoll k, JEnd) => Some (finish s (OPoll k))
       | Some (OOther n, _) => Some (finish s (OOther n))
       | Some (OFree, _) => Some (finish (s <| freed := true |>) OFree)
       end
@@ -212,6 +216,7 @@ Definition step_label (s : state) (a : actor) : option label :=
       | Some (OPoll _, JPoll) => Some LStream
       | Some (OPoll _, JProc _) => Some LProcess
       | Some (OPoll _, JClear) => Some LPollFn
+      | Some (OPoll _, JEnd) => Some LNone
       | Some (_, _) => Some LNone
       end
   | AWake i =>
@@ -282,10 +287,13 @@ Definition waker_armed (s : state) : bool :=
 Definition running_or_armed (s : state) : bool :=
   match s.(running) with
   | Some (OPoll k, JNew) | Some (OPoll k, JClear) => true
+  | Some (OPoll k, JEnd) => waker_armed s
   | Some (OPoll k, _) => is_live s.(wctx) k
   | _ => waker_armed s
   end.
-Definition poll_running (s : state) : bool := match s.(running) with Some (OPoll _, _) => true | _ => false end.
+(* a poll job is running and has not yet returned from its body *)
+Definition poll_running (s : state) : bool :=
+  match s.(running) with Some (OPoll _, JEnd) => false | Some (OPoll _, _) => true | _ => false end.
 
 (* poll job ids are waker ids *)
 Definition id_ok (c : list wk) (o : op) : bool := match o with OPoll k => bool_decide (k < length c) | _ => true end.
@@ -320,7 +328,7 @@ Definition rcost (r : option (op * jpc)) : nat :=
   match r with
   | None => 0
   | Some (OPoll _, JNew) => 5 | Some (OPoll _, JLockPf) => 4 | Some (OPoll _, JPoll) => 3
-  | Some (OPoll _, JProc _) => 4 | Some (OPoll _, JClear) => 1
+  | Some (OPoll _, JProc _) => 4 | Some (OPoll _, JClear) => 2 | Some (OPoll _, JEnd) => 1
   | Some (_, _) => 1
   end.
 Definition measure (s : state) : nat :=
